@@ -128,7 +128,35 @@ def brute_min(numbers, total, mult, partition, kmax):
 
 # ------------------------------------------------------------------ instances
 
+def gen_mgs_same_values(rng):
+    """two partition constraints over the same SET of values with different multiplicities (e.g. [1,2,2] and [1,1,1,2] for
+    total 5): they are different constraints, and the finer one is the one that decides"""
+    a, b = rng.sample(range(1, 5), 2)
+    p1 = [a] * rng.randint(1, 2) + [b] * rng.randint(1, 2)
+    total = sum(p1)
+    alts = []
+    for na in range(1, 6):
+        for nb in range(1, 6):
+            if na * a + nb * b == total and sorted([a] * na + [b] * nb) != sorted(p1):
+                alts.append([a] * na + [b] * nb)
+    if not alts:
+        return None
+    p2 = rng.choice(alts)
+    parts = [list(p1), list(p2)]
+    rng.shuffle(parts[0]); rng.shuffle(parts[1])
+    if rng.random() < 0.5:
+        parts.reverse()
+    wint = rng.random() < 0.6
+    return {"cls": "MinGenSet", "unit": "1" if wint else rng.choice(["1", "1/2"]), "numbers": sorted({a, b, total} | ({a + b} if rng.random() < 0.5 else set())),
+            "total": total, "weight_type": "int" if wint else "float", "max_multiplicity": 1, "lowerbound": 1,
+            "partition": parts, "remove_complement": rng.random() < 0.85}
+
+
 def gen_mgs(rng, thorough=False):
+    if rng.random() < 0.06:
+        inst = gen_mgs_same_values(rng)
+        if inst is not None:
+            return inst
     wint = rng.random() < 0.55
     unit = Fraction(1) if wint else rng.choice([Fraction(1), Fraction(1, 2), Fraction(1, 2), Fraction(1, 8)])
     mult = 1 if rng.random() < 0.6 else rng.randint(2, 3)
